@@ -212,6 +212,30 @@ PROPS['C10'] = dict(
     level_text='Bounded symbolic model checking of the invariants: starting from every valid shape with symbolic contents, each public operation (and each pair of operations) is executed on the real classes and every live object - targets, operands, moved-from objects, objects that saw a throwing call - must satisfy window validity, one coefficient array per interval and an unchanged strictly increasing grid; moved-from objects must be interval-free and are then reused.',
     level_note='Exact reals; shapes, operations and sequence length enumerated to the bound, scalars symbolic (zero included via solver forks); trusted: g++, libz3, sym.h/harness.h, invariant predicate in C10_invariants.cpp.')
 
+_ARCH = ['-DSYMT_STRICT', '-DSYMT_POISON_DEFAULT']
+PROPS['C19'] = dict(
+    engine='A', technique='archetype instantiation: every core template and the generic interpolate are compiled and symbolically executed with a scalar type offering ONLY the documented operations (default-constructed values are arbitrary, not zero); obligations of C01-C08, C12, C15 re-proved with it',
+    compile_failure_is_violation=True,
+    harnesses=[
+        dict(name='C19_generator', src='C01_generator.cpp', chunk=1, defs=dict(quick=_ARCH + ['-DMAXP=2', '-DEXTRA=3'], thorough=_ARCH + ['-DMAXP=3', '-DEXTRA=4', '-DSMOOTHNESS']), functions=['BSplineGenerator<T>', 'generateBSplines<p>']),
+        dict(name='C19_eval', src='C02_eval.cpp', defs=dict(quick=_ARCH + ['-DMAXN=3', '-DMAXO=2', '-DHISTN=2'], thorough=_ARCH + ['-DMAXN=4', '-DMAXO=3', '-DHISTN=3']), functions=['Spline<T,order>::operator()', 'Support<T>', 'Grid<T>']),
+        dict(name='C19_arith', src='C03_arith.cpp', defs=dict(quick=_ARCH + ['-DMAXN=4', '-DMAXO=1', '-DLCN=3'], thorough=_ARCH + ['-DMAXN=5', '-DMAXO=2', '-DLCN=4']), functions=['Spline arithmetic', 'linearCombination']),
+        dict(name='C19_primops', src='C04_primops.cpp', defs=dict(quick=_ARCH + ['-DMAXN=3', '-DMAXO=2', '-DMAXD=3'], thorough=_ARCH + ['-DMAXN=4', '-DMAXO=3', '-DMAXD=4']), functions=['Derivative<n>', 'Position<n>', 'IdentityOperator']),
+        dict(name='C19_grids', src='C08_grids.cpp', pre_includes=['symt/stub'], defs=dict(quick=_ARCH + ['-DMAXN=3'], thorough=_ARCH + ['-DMAXN=4']), functions=['integration::integrate<n>', 'SplineOperator<T,order>', 'BSplineGenerator(knots, grid)']),
+        dict(name='C19_interp', src='C12_interp.cpp', defs=dict(quick=_ARCH + ['-DMAXO=3', '-DMAXNODES=3', '-DFULLSEQ_MAXO=2'], thorough=_ARCH + ['-DMAXO=4', '-DMAXNODES=4', '-DFULLSEQ_MAXO=3']), functions=['interpolation::interpolate<T,order,Solver>']),
+        dict(name='C19_predicates', src='C15_predicates.cpp', defs=dict(quick=_ARCH + ['-DMAXN=3', '-DMAXO=1'], thorough=_ARCH + ['-DMAXN=4', '-DMAXO=2']), functions=['Spline::isZero', 'Spline::operator==', 'Spline::checkOverlap']),
+        dict(name='C19_instantiate', src='C19_instantiate.cpp', defs=dict(quick=_ARCH, thorough=_ARCH), functions=['explicit instantiation of Grid<T>, Support<T>, Spline<T,0..3>, BSplineGenerator<T>, SplineOperator<T,1>, ScalarMultiplication, OperatorSum, OperatorProduct, BilinearForm, LinearForm']),
+    ],
+    generated=[dict(mode='c06', ntu=4, template=dict(defs=dict(quick=_ARCH + ['-DMAXN=3', '-DMAXO=2', '-DFO=1'], thorough=_ARCH + ['-DMAXN=4', '-DMAXO=3', '-DFO=1']), functions=['BilinearForm<O1,O2>', 'compound/scalar operators'])),
+               dict(mode='c07', ntu=4, template=dict(defs=dict(quick=_ARCH + ['-DMAXN=3', '-DMAXO=2', '-DFO=1'], thorough=_ARCH + ['-DMAXN=4', '-DMAXO=3', '-DFO=1']), functions=['LinearForm<O>']))],
+    bounds=dict(quick='the harnesses of C01 (p<=2, m<=p+3), C02, C03, C04, C06, C07, C08, C12, C15 at reduced bounds plus an explicit-instantiation unit, all built with -DSYMT_STRICT -DSYMT_POISON_DEFAULT: no abs/fabs, no numeric_limits specialisation, construction from integral types only (explicit), copy-only, default-constructed value = arbitrary number',
+                thorough='the same harnesses at the quick bounds of their own properties'),
+    outside='scalar types with additional quirks (non-commutative multiplication, throwing operations); streaming is not offered by the archetype, so any use is a compile error; the bundled Eigen/Armadillo adapters (need a numeric type those libraries accept)',
+    assumptions=['the archetype sym::Real (strict build) offers exactly the documented operations', 'exact real arithmetic'],
+    trusted=A_TRUST,
+    level_text='Archetype check decided by compiler + solver: if any core template needs an operation outside the documented list, the strict build does not compile and that diagnostic is the violation; "with an exact field type all results are exact" is the conjunction of the equalities of C01-C08, C12, C15, re-proved over the reals with the strict archetype whose default-constructed values are unconstrained symbols (so reliance on value-initialisation being zero is exposed).',
+    level_note='Compile-time part is exact for the instantiations listed; run-time part is bounded like the underlying properties; trusted: g++, libz3, sym.h (strict build).')
+
 _NOT_BUILT = 'check not built yet in this round (planned, see DESIGN.md section 5)'
 NOT_APPLICABLE = {
     'C16': 'floating-point forward-error bound: bit-precise FP or (1+delta) NRA encodings of even the smallest instance return unknown/timeout on every installed solver (DESIGN.md section 7)',
